@@ -216,7 +216,8 @@ Theorem encode_layout : forall es, wf_entries es ->
   let k := N.of_nat (List.length tbl) in
   exists payloads,
     encode es = sig_CGPH ++ [1; 1; k mod 256; 0] ++ chunk_headers tbl (8 + (k + 1) * 12) ++ List.concat payloads
-    /\ Forall2 payload_ok payloads tbl.
+    /\ Forall2 payload_ok payloads tbl
+    /\ nth 0 payloads [] = flat_map be32 (fanout_of sorted).
 Proof.
   intros es Hwf sorted n tbl k.
   pose proof (sorted_entries_perm es Hwf) as Pse.
@@ -262,27 +263,27 @@ Proof.
   - specialize (Hovc eq_refl). destruct (0 <? overflow_count es) eqn:Eo.
     + exists [fan; List.concat sorted; cdat; flat_map be32 edges; gb; flat_map be64 ov]. split.
       * cbn [List.concat]. rewrite ?app_nil_r, <- ?app_assoc. reflexivity.
-      * repeat constructor; unfold payload_ok; simpl snd; auto. rewrite flat_map_be64_length. lia.
+      * split; [|reflexivity]. repeat constructor; unfold payload_ok; simpl snd; auto. rewrite flat_map_be64_length. lia.
     + assert (Hnil : ov = []) by (destruct ov; [reflexivity | simpl in Hovc; lia]). rewrite Hnil. cbn [flat_map].
       exists [fan; List.concat sorted; cdat; flat_map be32 edges; gb]. split.
       * cbn [List.concat]. rewrite ?app_nil_r, <- ?app_assoc. reflexivity.
-      * repeat constructor; unfold payload_ok; simpl snd; auto.
+      * split; [|reflexivity]. repeat constructor; unfold payload_ok; simpl snd; auto.
   - exists [fan; List.concat sorted; cdat; flat_map be32 edges]. split.
     + cbn [List.concat]. rewrite ?app_nil_r, <- ?app_assoc. reflexivity.
-    + repeat constructor; unfold payload_ok; simpl snd; auto.
+    + split; [|reflexivity]. repeat constructor; unfold payload_ok; simpl snd; auto.
   - assert (Hnile : edges = []) by (destruct edges; [reflexivity | simpl in Hedges; lia]). rewrite Hnile. cbn [flat_map].
     specialize (Hovc eq_refl). destruct (0 <? overflow_count es) eqn:Eo.
     + exists [fan; List.concat sorted; cdat; gb; flat_map be64 ov]. split.
       * cbn [List.concat]. rewrite ?app_nil_r, <- ?app_assoc. reflexivity.
-      * repeat constructor; unfold payload_ok; simpl snd; auto. rewrite flat_map_be64_length. lia.
+      * split; [|reflexivity]. repeat constructor; unfold payload_ok; simpl snd; auto. rewrite flat_map_be64_length. lia.
     + assert (Hnil : ov = []) by (destruct ov; [reflexivity | simpl in Hovc; lia]). rewrite Hnil. cbn [flat_map].
       exists [fan; List.concat sorted; cdat; gb]. split.
       * cbn [List.concat]. rewrite ?app_nil_r, <- ?app_assoc. reflexivity.
-      * repeat constructor; unfold payload_ok; simpl snd; auto.
+      * split; [|reflexivity]. repeat constructor; unfold payload_ok; simpl snd; auto.
   - assert (Hnile : edges = []) by (destruct edges; [reflexivity | simpl in Hedges; lia]). rewrite Hnile. cbn [flat_map].
     exists [fan; List.concat sorted; cdat]. split.
     + cbn [List.concat]. rewrite ?app_nil_r, <- ?app_assoc. reflexivity.
-    + repeat constructor; unfold payload_ok; simpl snd; auto.
+    + split; [|reflexivity]. repeat constructor; unfold payload_ok; simpl snd; auto.
 Qed.
 
 (* ---- the defect repaired in the repository (fix: commitgraph encoder sizes the generation
